@@ -40,11 +40,44 @@ static inline void Transport_close(struct Transport* t) { g_close_calls = g_clos
 static inline time_t env_time(void) { return g_now; }
 static inline uint64_t clockGetMillis(void) { return nondet_ulong() >> 8; }
 
+/* file transport environment: the adapter byte stream is g_stream[]; ::read appends the next bytes, ppoll may time out or fail */
+struct timespec { long tv_sec; long tv_nsec; };
+struct TransportListener { int dummy; };
+#define STREAM_N 128
+const symbol_t* g_stream; size_t g_base;      /* g_stream[g_base] is the oldest byte not yet consumed by the device */
+unsigned g_overflow_notes; size_t g_read_space; long g_read_ret; int g_poll_ret;
+static inline void TrListener_notifyTransportMessage(struct TransportListener* l, _Bool error, const char* msg) { g_overflow_notes = g_overflow_notes + 1; }
+static inline int env_ppoll(int fd, struct timespec* t) { return g_poll_ret; }
+static inline void* env_memmove(void* dst, const void* src, size_t n) {
+  __CPROVER_assert(n <= 32, "[C20] memmove within the 32 byte buffer");
+  symbol_t tmp[32]; const symbol_t* s = (const symbol_t*)src; symbol_t* d = (symbol_t*)dst;
+  for (size_t i = 0; i < 32; i++) { if (i < n) tmp[i] = s[i]; }
+  for (size_t i = 0; i < 32; i++) { if (i < n) d[i] = tmp[i]; }
+  return dst;
+}
 #include "gen_protos.h"
-result_t EDEV_requestEnhancedInfo(EDEV* self, symbol_t infoId, _Bool wait) { g_reqinfo_calls = g_reqinfo_calls + 1; self->m_infoLen = nondet_bool() ? 1 : 0; self->m_infoPos = self->m_infoLen; return nondet_bool() ? RESULT_OK : RESULT_ERR_SEND; }
+_Bool g_reqinfo_ok;   /* whether the info request can be written (chosen by the harness) */
+/* effect of requestEnhancedInfo(id, false) as in device_trans.cpp: on success the response is awaited from position 1 */
+result_t EDEV_requestEnhancedInfo(EDEV* self, symbol_t infoId, _Bool wait) {
+  g_reqinfo_calls = g_reqinfo_calls + 1;
+  if (g_reqinfo_ok) { self->m_infoBuf[0] = infoId; self->m_infoLen = 1; self->m_infoPos = 1; return RESULT_OK; }
+  self->m_infoLen = 0; self->m_infoPos = 0; return RESULT_ERR_SEND;
+}
 void EDEV_notifyInfoRetrieved(EDEV* self) {
   __CPROVER_assert(self->m_infoLen >= 1 && self->m_infoLen <= sizeof(self->m_infoBuf) && self->m_infoPos == self->m_infoLen, "[C20] info response is complete and inside the info buffer when it is parsed");
   g_infonotify_calls = g_infonotify_calls + 1;
+}
+static inline _Bool FTR_isValid(FTR* self) { return self->m_fd != -1; }
+static inline void FTR_close(FTR* self) { self->m_fd = -1; }
+/* ::read(fd, buf, count): returns -1/0 or k in 1..count and stores the next k bytes of the adapter stream */
+static inline long env_read(int fd, symbol_t* buf, size_t count) {
+  g_read_space = count;
+  __CPROVER_assert(count <= 32 && count >= 1, "[C20] ::read is asked for at least one and at most the free bytes of the buffer");
+  long k = g_read_ret;
+  if (k <= 0) return k;
+  __CPROVER_assume((size_t)k <= count);
+  FTR* t = (FTR*)0;
+  return k;
 }
 #include "spec.h"
 #include "gen_funcs.inc"
@@ -66,7 +99,7 @@ void h_enh_decode(void) {
   __CPROVER_assume(len <= DEC_MAXLEN && DEV_OK(&d) && g_now >= 0 && g_now < (1L << 33));
   __CPROVER_assume(arb0 == as_none || arb0 == as_running);       /* recv() passes as_running exactly while an arbitration is requested */
   __CPROVER_assume((arb0 == as_running) == (d.m_arbitrationMaster != 0xAA));
-  r = d;
+  r = d; g_reqinfo_ok = nondet_bool();
   g_ev.n = 0; g_consumed_calls = 0; g_close_calls = 0; g_reqinfo_calls = 0; g_infonotify_calls = 0; g_data_calls = 0; g_tw_n = 0; g_tw_calls = 0; g_tw_result = nondet_bool() ? RESULT_OK : RESULT_ERR_SEND;
   result_t res = EDEV_handleEnhancedBufferedData(&d, buf, len, &value, &arb);
   struct ref_out o = ref_decode_call(&r, buf, len, arb0);
@@ -80,7 +113,7 @@ void h_enh_decode(void) {
   __CPROVER_assert(d.m_arbitrationMaster == r.m_arbitrationMaster && d.m_arbitrationCheck == r.m_arbitrationCheck, "[C14] arbitration bookkeeping equals the reference");
   __CPROVER_assert(g_close_calls == o.closes && g_reqinfo_calls == o.reqinfos && g_infonotify_calls == o.infos, "[C14] reset / info side effects equal the reference");
   __CPROVER_assert(d.m_extraFeatures == r.m_extraFeatures && d.m_resetRequested == r.m_resetRequested, "[C14] feature / reset bookkeeping equals the reference");
-  __CPROVER_assert(o.reqinfos > 0 || (d.m_infoLen == r.m_infoLen && (d.m_infoLen == 0 || d.m_infoPos == r.m_infoPos)), "[C14] info transfer bookkeeping equals the reference");
+  __CPROVER_assert(d.m_infoLen == r.m_infoLen && (d.m_infoLen == 0 || d.m_infoPos == r.m_infoPos), "[C14] info transfer bookkeeping equals the reference");
   __CPROVER_assert(DEV_OK(&d), "[C20] device state stays well-formed (info position inside the buffer)");
   __CPROVER_assert(g_data_calls == (o.has_sym ? 1u : 0u) && (!o.has_sym || (g_data_value == o.sym && g_data_received == !o.sent)), "[C14] the delivered symbol is logged once as received / sent");
   if (o.has_sym && o.more) { CANARY("symbol and more"); }
@@ -150,5 +183,51 @@ void h_plain_recv(void) {
   } else {
     __CPROVER_assert(g_consumed_calls == 0 && g_tw_calls == 0, "[C14] nothing is consumed or written without data");
     __CPROVER_assert(g_rd_result == RESULT_ERR_TIMEOUT || (d.m_arbitrationMaster == 0xAA && (m0 == 0xAA || arb == as_error)), "[C03] a device error cancels a requested arbitration");
+  }
+}
+
+/* plain byte transport: the buffer always holds the unconsumed bytes of the stream in order; an overflow reset discards exactly the
+   buffered bytes and is notified; readConsumed drops exactly the consumed prefix */
+FTR nondet_FTR(void);
+void h_transport(void) {
+  FTR t = nondet_FTR(); symbol_t buffer[32]; struct TransportListener lis; const uint8_t* data = NULL; size_t len = nondet_size(), len0 = len;
+  symbol_t stream[STREAM_N]; g_stream = stream;   /* arbitrary adapter byte stream */
+  t.m_buffer = buffer; t.m_bufSize = 32; t.m_listener = &lis; g_base = nondet_size(); g_overflow_notes = 0;
+  __CPROVER_assume(t.m_bufLen <= 32 && g_base <= 32 && t.m_latency <= 10000);
+  __CPROVER_assume(__CPROVER_forall { size_t i; (i < 32) ==> (i < t.m_bufLen ==> buffer[i] == g_stream[g_base + i]) });
+  size_t n0 = t.m_bufLen;
+  if (nondet_bool()) {
+    unsigned timeout = nondet_uint(); g_poll_ret = nondet_int(); g_read_ret = nondet_long();
+    __CPROVER_assume(timeout <= 100000 && g_poll_ret >= -1 && g_poll_ret <= 1 && g_read_ret >= -1 && g_read_ret <= 32);
+    /* the stub of ::read copies the next stream bytes behind the buffered ones (done here because the stub has no access to the transport) */
+    _Bool overflow = n0 > 0 && n0 > 32 - 32 / 4;
+    size_t at = overflow ? 0 : n0;
+    symbol_t pre[32]; for (int i = 0; i < 32; i++) pre[i] = buffer[i];
+    size_t streampos = g_base + n0;     /* position of the next byte the adapter delivers */
+    _Bool willread = timeout > 0 && g_poll_ret > 0 && t.m_fd != -1;   /* the only path on which ::read is called */
+    for (size_t i = 0; i < 32; i++) { if (willread && i >= at && g_read_ret > 0 && i < at + (size_t)g_read_ret) buffer[i] = g_stream[streampos + (i - at)]; }
+    result_t r = FTR_read(&t, timeout, &data, &len);
+    if (r == RESULT_OK) {
+      __CPROVER_assert(data == buffer && len == t.m_bufLen && len >= 1 && len <= 32, "[C14] read hands out the whole buffer");
+      if (timeout == 0) { __CPROVER_assert(t.m_bufLen == n0 && g_overflow_notes == 0, "[C14] timeout 0 only returns what is buffered"); }
+      else {
+        __CPROVER_assert((g_overflow_notes == 1) == overflow, "[C14] an overflow reset is reported, and only then bytes are discarded");
+        if (overflow) { g_base = g_base + n0; __CPROVER_assert(t.m_bufLen == (size_t)g_read_ret, "[C14] overflow discards exactly the buffered bytes"); CANARY("overflow"); }
+        else { __CPROVER_assert(t.m_bufLen == n0 + (size_t)g_read_ret, "[C14] new bytes are appended behind the buffered ones"); }
+      }
+      __CPROVER_assert(__CPROVER_forall { size_t j; (j < 32) ==> (j < t.m_bufLen ==> buffer[j] == g_stream[g_base + j]) }, "[C14] the buffer holds the unconsumed stream bytes unchanged and in order");
+      CANARY("read ok");
+    } else {
+      __CPROVER_assert(len == len0 && (t.m_bufLen == n0 || (overflow && t.m_bufLen == 0 && g_overflow_notes == 1)), "[C14] a failed read changes nothing (besides a reported overflow reset)");
+    }
+    __CPROVER_assert(t.m_bufLen <= 32, "[C20] buffer length within the buffer");
+  } else {
+    size_t c = nondet_size();
+    FTR_readConsumed(&t, c);
+    size_t drop = c >= n0 ? n0 : c;
+    g_base = g_base + drop;
+    __CPROVER_assert(t.m_bufLen == n0 - drop, "[C14] readConsumed drops exactly the consumed bytes");
+    __CPROVER_assert(__CPROVER_forall { size_t j; (j < 32) ==> (j < t.m_bufLen ==> buffer[j] == g_stream[g_base + j]) }, "[C14] the remaining bytes move to the front unchanged and in order");
+    if (drop > 0 && drop < n0) { CANARY("partial consume"); }
   }
 }
